@@ -143,4 +143,13 @@ def run(case):
     checks += 1
     if relerr(ev, ev2) > 1e-7:
         F.append(Finding("oracle", "seed_reproducible", cc + ("|seed0" if bseed == 0 else ""), f"two bootstrappers with seed={bseed} disagree (rel {relerr(ev, ev2):.2e})"))
+    # … also when the SAME bootstrapper object is fitted again: the seed determines the resamples, not the object's history
+    try:
+        b.fit(model)
+        ev3 = np.asarray(b.data["explained_variance"].transpose("n", "mode").values)
+        checks += 1
+        if relerr(ev, ev3) > 1e-7:
+            F.append(Finding("oracle", "seed_reproducible", cc + "|refit" + ("|seed0" if bseed == 0 else ""), f"fitting the same bootstrapper (seed={bseed}) a second time gives other members (rel {relerr(ev, ev3):.2e})"))
+    except Exception as e:  # noqa: BLE001
+        F.append(Finding("oracle", "seed_reproducible", cc + "|refit|raises", f"{type(e).__name__}: {str(e)[:140]}"))
     return {"findings": F, "info": {"oracle_checks": {"n": checks}, "dist": {"struct": st, "names": case["names"], "nb": nb, "seed0": bseed == 0}}}
